@@ -131,7 +131,7 @@ def main():
         ex, body, _ = c01.make_family(H, 2, quick)()
         return ex, body, None
     parts[1] = ("the same on groups of 2 definitions over leaves, sums, calls, lambdas", family_factory(H, quick))
-    for name, alpha, b in TC.interplay_families(True, "ADE" if quick else "ABCDE"):
+    for name, alpha, b in TC.interplay_families(True, "ACE" if quick else "ABFCDE"):
         parts.append((name, c03.make_factory(H, b, alpha, 6000, obligations)))
     only = os.environ.get("C04_PARTS")
     if only:
